@@ -116,11 +116,18 @@ type victim struct {
 }
 
 // newVictim builds a fresh router with one-way links to stubs for the given peers.
-func newVictim(idV *m.Address, peers []*m.Address) (*victim, error) {
+func newVictim(idV *m.Address, peers []*m.Address, known []*m.Address) (*victim, error) {
 	ms := vmesh.New()
 	v, err := ms.AddNode(idV, vmesh.NodeOpts{})
 	if err != nil {
 		return nil, err
+	}
+	// routers the victim has met before (stored record, so a session is built from storage)
+	for _, k := range known {
+		pk := k.PublicAddress
+		if err := v.Inst.StateV.AddRouter(&pk); err != nil {
+			return nil, err
+		}
 	}
 	vc := &victim{ms: ms, v: v}
 	for i, p := range peers {
@@ -336,6 +343,25 @@ func genVariants(r *rand.Rand, c *capture, all []*capture, idsByIP map[netip.Add
 			}
 		}
 	}
+	// a hop record that names a (possibly already known) router's address but carries and is signed with a foreign key
+	if depthN >= 1 {
+		outer := c.layers[0]
+		var foreign *m.Address
+		for _, other := range c.ids {
+			if other.IP != outer.Router.IP && other.IP != c.origin {
+				foreign = other
+				break
+			}
+		}
+		if foreign != nil {
+			att := outer
+			att.Router = m.PublicAddress{IP: outer.Router.IP, Hash: foreign.Hash, Type: foreign.Type, PublicKey: foreign.PublicKey}
+			body, _ := cbor.Marshal(att)
+			if sig, err := foreign.SignWithContext(body, signingContext(c.data)); err == nil {
+				vs = append(vs, variant{op: "hop-record-with-foreign-key", data: withApx(c, append(body, sig...)), viaPeer: c.sender, field: "layers-resigned", depth: 0})
+			}
+		}
+	}
 	// garbage appendices
 	vs = append(vs, variant{op: "appendix-garbage", data: withApx(c, core.RandBytes(r, 65+r.IntN(200))), viaPeer: c.sender, field: "appendix", depth: 0})
 	if depthN == 0 {
@@ -356,8 +382,16 @@ func runVariants(res *core.Result, r *rand.Rand, caps []*capture, idV *m.Address
 		if !perCapture(c) {
 			continue
 		}
-		for _, v := range genVariants(r, c, caps, idsByIP, flips) {
-			vc, err := newVictim(idV, []*m.Address{v.viaPeer, spare})
+		for vi, v := range genVariants(r, c, caps, idsByIP, flips) {
+			// alternately a fresh victim and one that has met every router of the mesh before
+			var known []*m.Address
+			knows := "fresh-victim"
+			if vi%2 == 1 || v.op == "hop-record-with-foreign-key" {
+				known = c.ids
+				knows = "victim-knows-routers"
+			}
+			v.op = v.op + "/" + knows
+			vc, err := newVictim(idV, []*m.Address{v.viaPeer, spare}, known)
 			if err != nil {
 				res.Inconcl("victim: %v", err)
 				return
@@ -388,7 +422,7 @@ func runVariants(res *core.Result, r *rand.Rand, caps []*capture, idV *m.Address
 					res.Violate("forged-announcement-forwarded:"+v.op, fmt.Sprintf("variant %s (origin %s) made the victim forward %d announcement frame(s)", v.op, c.origin, nAnn), wit)
 					return
 				}
-				res.Count("rejected:"+v.op, 1)
+				res.Count("rejected:"+strings.SplitN(v.op, "/", 2)[0], 1)
 				res.Case(key, v.multi || v.depth >= 1)
 				continue
 			}
